@@ -1459,6 +1459,18 @@ def isfinite(x):
     return bool(_rnp.isfinite(x))
 
 
+def count_nonzero(a, axis=None):
+    if axis is not None:
+        raise UnsupportedInShim("count_nonzero(axis=)")
+    a = asarray(a)
+    n = 0
+    for p in a._idx:
+        t = _truthy_all([a._buf[p]], a.dtype.code)
+        if bool(t):  # a symbolic element forks
+            n += 1
+    return n
+
+
 def nan_to_num(x, copy=True, nan=0.0, posinf=None, neginf=None):
     """NaN -> nan (0.0), +inf/-inf -> largest/smallest finite value of the dtype."""
     a = asarray(x)
